@@ -7,18 +7,33 @@ import (
 
 	"verif/harness/core"
 	"verif/harness/gen"
+	"verif/harness/ref"
 )
 
 // semBatch runs one change against several generated files through the API and (every
 // cliEvery-th case) the CLI, judging each run with the reference model.
 func semBatch(ctx *core.Ctx, idx int, res *core.Result, c *gen.Change, srcs []string, sigExtra []string, viaCLI bool, prop string) {
-	pat, err := c.RefPattern()
-	if err != nil {
-		res.Inconcl++
-		res.Ob("inconclusive:pattern-outside-fragment", 1)
-		return
+	semBatchSeq(ctx, idx, res, []*gen.Change{c}, srcs, sigExtra, viaCLI, prop)
+}
+
+// semBatchSeq is semBatch for a patch consisting of several changes.
+func semBatchSeq(ctx *core.Ctx, idx int, res *core.Result, cs []*gen.Change, srcs []string, sigExtra []string, viaCLI bool, prop string) {
+	var pats []*ref.Pattern
+	var pts []string
+	skel := ""
+	for _, c := range cs {
+		pat, err := c.RefPattern()
+		if err != nil {
+			res.Inconcl++
+			res.Ob("inconclusive:pattern-outside-fragment", 1)
+			return
+		}
+		pats = append(pats, pat)
+		pts = append(pts, c.PatchText())
+		skel += c.Skeleton()
 	}
-	pt := c.PatchText()
+	c := cs[len(cs)-1]
+	pt := strings.Join(pts, "\n")
 	if os.Getenv("VERIF_DUMP") != "" {
 		fmt.Fprintf(os.Stderr, "=== case %d schema %s\n%s\n", idx, c.Schema, pt)
 	}
@@ -31,7 +46,7 @@ func semBatch(ctx *core.Ctx, idx int, res *core.Result, c *gen.Change, srcs []st
 	}
 	for pi, runs := range paths {
 		for i, src := range srcs {
-			v := judge(c, pat, src, runs[i])
+			v := judgeSeq(pats, src, runs[i])
 			res.Evals++
 			res.Ob("runs:"+names[pi], 1)
 			if v.Inconcl != "" {
@@ -53,7 +68,7 @@ func semBatch(ctx *core.Ctx, idx int, res *core.Result, c *gen.Change, srcs []st
 				ex = sigExtra[i]
 			}
 			if v.Stats.Sites > 0 || ex != "" {
-				res.Sig(c.Skeleton(), v.Stats.SiteKinds, ex)
+				res.Sig(skel, v.Stats.SiteKinds, ex)
 			}
 			if v.Class != "" {
 				res.Violate(prop+"/"+v.Class, fmt.Sprintf("[%s path, schema %s] %s", names[pi], c.Schema, v.Detail), replayFiles(pt, src, v.Out))
